@@ -1186,7 +1186,7 @@ impl Hist {
                 format!("H xrew {} {} {} {} {} {} {} {}", kind, if r.chance(1, 2) { 1 } else { 2 }, idx, id, auth, value, fa, fb)
             }
             49 if r.chance(1, 4) => format!("H xclose22 {} {}", id, r.pick(&[0u8, 0, 0, 0, 1, 2])),
-            49 => {
+            49 | 93 | 94 => {
                 // locking and what a locked position may still do
                 let follow = r.pick(&["none", "dec", "close", "reset", "repo", "inc", "cf", "xfer", "lock2", "xferm", "xfers", "xferl"]);
                 let withliq: Vec<u32> = ids.iter().copied().filter(|i| w.pos(*i).map(|q| q.liquidity > 0).unwrap_or(false)).collect();
